@@ -19,7 +19,7 @@ from harnesses.c01_documents import OUT, STUBS, _fns
 NOT_REPLAYABLE = {"pause", "subscribe", "unsubscribe", "stage", "unstage", "monitor", "unmonitor", "open_run", "close_run", "install_suspender",
                   "remove_suspender", "_start_suspender"}
 IMPLICIT = {"checkpoint", "stage", "unstage", "monitor", "unmonitor", "subscribe", "unsubscribe", "close_run"}
-NOPS = 13
+NOPS = 14
 
 
 def build(prog):
@@ -81,6 +81,13 @@ def build(prog):
                 elif op == 11:
                     yield Msg("trigger", det, group="t")
                     yield Msg("wait", None, group="t")
+                elif op == 13:  # a whole non-rewindable region that is long enough for an interruption to take effect inside it
+                    yield Msg("rewindable", None, False)
+                    yield Msg("null", None, "x1")
+                    yield Msg("sleep", None, 0.1)
+                    yield Msg("null", None, "x2")
+                    yield Msg("null", None, "x3")
+                    yield Msg("rewindable", None, True)
                 elif op == 12:
                     yield Msg("unstage" if st["sstaged"] else "stage", sdet, group="s")
                     yield Msg("wait", None, group="s")
@@ -100,22 +107,39 @@ def build(prog):
     return factory
 
 
-def expected_since(msgs, earlier_rewinds=()):
+def expected_since(msgs, earlier_rewinds=(), problems=None):
     """Messages that a rewind after executing ``msgs`` must replay (reference from the statement).
 
     An earlier rewind hands everything executed since the checkpoint over to its replay, so the history restarts
-    there (the replayed messages are executed, and therefore counted, again)."""
+    there (the replayed messages are executed, and therefore counted, again).  The suspension helper switches
+    rewinding off for its own messages and must put it back the way it was: the reference restores the previous
+    value itself (and reports a helper that restores something else)."""
     since, rew = [], True
+    helper_opening = False
+    before, pending = [], 0  # stack of rewindability values seen at each _start_suspender; restores still due
     for idx, m in enumerate(msgs):
         if idx in earlier_rewinds:
             since = []
         c = m.command
+        if c == "_start_suspender":
+            before.append(rew)
+            helper_opening = True  # the helper's first message switches rewinding off for itself: not a restore
+        elif c == "_resume_from_suspender":
+            pending += 1
         if rew and c not in NOT_REPLAYABLE:
             since.append(m)
         if c in IMPLICIT:
             since = []
         elif c == "rewindable":
             new = bool(m.args[0]) if m.args and m.args[0] is not None else rew
+            if helper_opening:
+                helper_opening = False
+            elif pending and before:
+                want = before.pop()
+                pending -= 1
+                if new != want and problems is not None:
+                    problems.append("suspension-did-not-restore-the-plan's-rewindability")
+                new = want
             if new != rew:
                 since = []
             rew = new
@@ -144,7 +168,7 @@ def oracle(obs):
         for rep in range(rewind_at.get(j, 0)):
             goal("rewound")
             # a second rewind before any further message finds the history already handed over: nothing new to replay
-            exp = expected_since(msgs[:j], {n for n in rewind_at if n < j}) if rep == 0 else []
+            exp = expected_since(msgs[:j], {n for n in rewind_at if n < j}, tags) if rep == 0 else []
             if exp:
                 goal("replayed-something")
             stack.append(list(exp))  # a rewind pushes a replay plan on top of whatever is still pending
@@ -163,6 +187,7 @@ def oracle(obs):
         elif stack and m.command not in HELPER:
             tags.append("plan-continued-before-the-replay-finished")
         seen.add(id(m))
+    expected_since(msgs, set(rewind_at), tags)
     while stack and not stack[-1]:
         stack.pop()
     if stack and obs.state == "idle" and obs.plan_end is not None and obs.plan_end[0] == "return":
@@ -211,13 +236,13 @@ def make(P):
     return h
 
 
-SYM = ("generated plan: L symbolic opcodes (13 kinds: null, checkpoint, rewindable off/on, stage|unstage, monitor|unmonitor, subscribe|unsubscribe, "
+SYM = ("generated plan: L symbolic opcodes (14 kinds incl. a whole non-rewindable region with a sleep inside: null, checkpoint, rewindable off/on, stage|unstage, monitor|unmonitor, subscribe|unsubscribe, "
        "close_run+open_run, set+wait, create/read/save, sleep, trigger+wait, stage|unstage of a device whose stage() returns a Status; the two-interruption quick tier uses 6 of them) in a fixed skeleton; a pause (resumed) or 1 s suspension at loop step k1 in [0,T+2]; "
        "optionally a second interruption within `window` steps")
 register(Harness("c04_replay", "C04", make, {"quick": dict(L=2, shards=32, budget_s=300, per_path_s=30), "thorough": dict(L=3, shards=96, budget_s=3000, per_path_s=30)},
                  goals=["paused", "resumed", "suspended", "rewound", "replayed-something"], functions=_fns, mode="schedule", symbolic=SYM,
                  out_of_bound=OUT + "; clear_checkpoint sections (C10); pauses inside a suspender's own pre/post plan", stubs=STUBS, require_exhaustive=True))
-register(Harness("c04_replay_two", "C04", make, {"quick": dict(L=2, two=True, window=4, ops=[0, 2, 3, 8, 9, 12], shards=36, budget_s=300, per_path_s=30),
+register(Harness("c04_replay_two", "C04", make, {"quick": dict(L=2, two=True, window=12, ops=[0, 9, 13], shards=32, budget_s=300, per_path_s=30),
                                                     "thorough": dict(L=2, two=True, window=10, shards=96, budget_s=3000, per_path_s=30)},
                  goals=["paused", "resumed", "suspended", "rewound"], functions=_fns, mode="schedule", symbolic=SYM, out_of_bound=OUT, stubs=STUBS,
                  require_exhaustive=True))
